@@ -417,13 +417,33 @@ def sequential_mode(ctx, prog):
            f.loc(c), rules.guard_holds(gs, chunk_taken), '')
     lk = advance_rule(ctx, prog, f, P)
     giveback_rule(ctx, prog, f, P, lk)
-    # (5) the pending block becomes eligible at end of input
-    g = prog.func('compress', 'can_collect_seq')
-    Pg = Prov(prog, g)
-    reads = {addr_key(Pg.addr(i.ops[0])) for i in g.insns() if i.op == 'load'}
-    ok = 'G:compress:unfinished_work' in reads and any(str(k).endswith('eof') for k in reads)
-    ctx.ob('C04.feed', 'can_collect_seq() looks at end-of-input and at the pending block (so that the last, partly '
-           'filled block is finished)', g.loc(), ok, str(sorted(map(str, reads))))
+    # (5) the pending block becomes eligible exactly at end of input (decision table of can_collect_seq())
+    from expandrules import (counter_fact, counter_gt, flag_fact, nonnull_fact, nonempty_q, predicate_table)
+    g, rows = predicate_table(prog, 'compress', 'can_collect_seq',
+                              [counter_fact({'G:work_units'}), nonempty_q('compress', 'coll_q'), flag_fact('eof', 'G:eof'),
+                               flag_fact('ultra', 'G:ultra'), flag_fact('token', 'G:compress:collect_token'),
+                               nonnull_fact('pending', 'G:compress:unfinished_work')])
+    ctx.floor('C04 can_collect_seq decision paths', len(rows), 3)
+    bad = []
+    for val, fa in rows:
+        chunk = fa.get('nonempty:coll_q')
+        if val is None:
+            bad.append('result not determined by the tracked conditions %s' % sorted(map(str, fa)))
+        elif val:
+            if chunk is not True and not (fa.get('eof') is True and fa.get('pending') is True):
+                bad.append('ready with no chunk queued although the input has not ended (or nothing is pending): the '
+                           'partly filled block would be finished early (facts %s)' % {str(k): v for k, v in fa.items()})
+            if fa.get('token') is not True or fa.get('ultra') is not True:
+                bad.append('ready without the collect token / outside --sequential')
+        else:
+            # must not refuse the final flush: eof, a block pending, token held
+            if fa.get('eof') is not False and fa.get('pending') is not False and fa.get('token') is not False and \
+                    fa.get('ultra') is not False and chunk is not True:
+                bad.append('refuses to finish the pending block at end of input (facts %s)' %
+                           {str(k): v for k, v in fa.items()})
+    ctx.ob('C04.feed', 'can_collect_seq(): with no chunk queued the collector runs only at end of input with a block '
+           'pending (then it does run): the last, partly filled block is finished exactly once, never early', g.loc(),
+           not bad, '; '.join(sorted(set(bad))[:2]) or '%d decision paths' % len(rows), evals=len(rows))
 
 
 def _peeled_from_collect(P, e, depth=0):
